@@ -113,3 +113,34 @@ class Refile:
 
     def __getattr__(self, name):
         return getattr(self.chk, name)
+
+
+def sign_helper(chk, ctx, rule) -> None:
+    """utilities.sign: 1 for positive, -1 for negative, 0 for zero (late posts are told from blinds by the sign)"""
+    from .. import terms as T
+    fi = ctx.prog.func('utilities.sign')
+    got = {}
+    for p in ctx.paths(fi):
+        if p.returned:
+            got.setdefault(p.outcome[1], []).append(frozenset(p.conds()))
+    pos, neg = T.spec('value > 0', boolean=True), T.spec('value < 0', boolean=True)
+    ok = set(got) == {('num', 1), ('num', -1), ('num', 0)} \
+        and all(pos in c for c in got[('num', 1)]) and all(neg in c for c in got[('num', -1)]) \
+        and all(T.mk_not(pos) in c and T.mk_not(neg) in c for c in got[('num', 0)])
+    chk.ob(rule, 'utilities.sign', ok, fi.loc, 'sign(x) is 1 exactly for x > 0, -1 exactly for x < 0, else 0',
+           got={T.show(k): [sorted(T.show(x) for x in c) for c in v] for k, v in got.items()})
+
+
+def rotated_helper(chk, ctx, rule) -> None:
+    """utilities.rotated: a deque of the values, rotated by count"""
+    from .. import terms as T
+    from ..paths import unversion
+    fi = ctx.prog.func('utilities.rotated')
+    ok = False
+    for p in ctx.paths(fi):
+        if not p.returned:
+            continue
+        r = unversion(p.outcome[1])
+        rot = [e for e in p.events if e.kind == 'call' and e.term[0] == 'mcall' and e.term[2] == 'rotate']
+        ok = r == T.spec('deque(values)') and len(rot) == 1 and unversion(rot[0].term[1]) == r and rot[0].term[3] == (('name', 'count'),)
+    chk.ob(rule, 'utilities.rotated', ok, fi.loc, 'rotated(values, n) returns deque(values) rotated by exactly n (seat order starts after the button)')
